@@ -214,3 +214,23 @@ impl<V> StoreModel<V> {
     /// "keys are told apart by their index hash": no stale expiry listing carries an incompatible conflict hash
     pub uninterp spec fn no_index_collisions(&self) -> bool;
 }
+
+/// the unbounded `clear` signal channel to the processor
+pub struct SignalTxModel { pub sent: Ghost<nat> }
+pub struct SendError { pub _p: u8 }
+impl SignalTxModel {
+    #[verifier::external_body]
+    pub fn send(&mut self, msg: ()) -> (r: Result<(), SendError>)
+        ensures r.is_ok() ==> final(self).sent@ == old(self).sent@ + 1, r.is_err() ==> final(self).sent@ == old(self).sent@,
+    { unimplemented!() }
+}
+impl PolicyModel {
+    // [pol.clear.empty] (u4_policy)
+    #[verifier::external_body]
+    pub fn clear(&mut self) ensures final(self).charges@ == Map::<u64, i64>::empty() { unimplemented!() }
+}
+impl<V> StoreModel<V> {
+    // [store.clear.empty] (u6_store)
+    #[verifier::external_body]
+    pub fn clear(&mut self) ensures final(self).view@ == Map::<u64, SItem<V>>::empty(), final(self).item_size == old(self).item_size { unimplemented!() }
+}
